@@ -1164,7 +1164,13 @@ func (m *Nitro) LoadFromDisk(dir string, concurr int, callb ItemCallback) (*Snap
 		}
 	}
 
+	oldStore := m.store
 	m.store = b.Assemble(segments...)
+	if m.useMemoryMgmt {
+		// The replaced store of a fresh instance owns nothing but its sentinels
+		oldStore.FreeNode(oldStore.HeadNode(), &oldStore.Stats)
+		oldStore.FreeNode(oldStore.TailNode(), &oldStore.Stats)
+	}
 
 	// Delta processing
 	if m.useDeltaFiles {
